@@ -684,7 +684,13 @@ func c05(r *core.Run) {
 			r.Bad("E2", core.FuncName(fn), what+"->"+codeConst, p.Pos(fn.Pos()), "no static reply on the "+what+" edge ("+condSub+")")
 		}
 	}
-	expect(proc, "param:mh==nil", "CodeNotFound", "no-resource")
+	matchParam := "mh"
+	for _, prm := range proc.Params {
+		if isPtrTo(prm.Type(), "Match") {
+			matchParam = prm.Name()
+		}
+	}
+	expect(proc, "param:"+matchParam+"==nil", "CodeNotFound", "no-resource")
 	expect(body, "Handler.Get==nil", "CodeNotFound", "get-without-handler")
 	expect(d, "!"+mReq.flag.String(), "CodeInternalError", "missing-reply")
 	// every handler return reaches the missing-reply fallback: with the handler calls as havoc, the
